@@ -2,7 +2,7 @@
    Every statement is about the chains GENERATED from building.py (coq/gen/C17_Chain.v). *)
 From Coq Require Import List ZArith Bool String.
 Import ListNotations.
-Require Import V.C17.Model V.C17.Proofs V.C17.Proofs2 V.C17.Chains V.gen.C17_Chain.
+Require Import V.C17.Model V.C17.Proofs V.C17.Proofs2 V.C17.Proofs3 V.C17.Proofs4 V.C17.Chains V.gen.C17_Chain.
 Open Scope Z_scope.
 
 (* The regex sources and the point classes extracted from globaling.py are exactly the ones the
@@ -89,7 +89,68 @@ Theorem point_roundtrip : forall c k zs, In c point_chains ->
 Proof. exact point_proof. Qed.
 Print Assumptions point_roundtrip.
 
+(* DECIMAL-coordinate points: every coordinate is ANY text of the regex group language
+   [-+]?\d+\.\d*|[-+]?\d+  (numtext: optional sign, digits, optionally '.' and digits, possibly none);
+   all six kinds, lower or upper letters, all six chains with points.  There is NO collision with
+   lat/lon: REO_LatLon* needs the text to END in a digit and a complete point literal ends in its
+   last letter, so the side condition is empty (the near-miss 1n2.5, without the final e, is not a
+   point literal at all: see ex_latlon_not_point). *)
+Theorem point_dec_roundtrip : forall c k cs, In c point_chains -> Forall numtext cs ->
+  List.length cs = List.length (letters k) ->
+  conv (chain_of c) (render_t cs (letters k)) = Ok (VPoint k cs) /\
+  conv (chain_of c) (render_t cs (upletters k)) = Ok (VPoint k cs).
+Proof. exact point_dec_proof. Qed.
+Print Assumptions point_dec_roundtrip.
+
+(* lat/lon literals  <digits><h><digits>.<digits>  in all eight chains with the lat/lon steps:
+   h in the NE class [N,E,n,e] (the class contains the comma) gives +(deg + min/60) i.e.
+   VLatLon false; h in the SW class [S,W,s,w] and not in the NE class (i.e. S W s w) gives the
+   negative one; no earlier step (quoted, none/bool, path) captures it. *)
+Theorem latlon_roundtrip : forall c deg h m1 m2, In c latlon_chains ->
+  digits deg -> digits m1 -> digits m2 ->
+  (memZ h ne_class = true ->
+     conv (chain_of c) (latlon_text deg h m1 m2) = Ok (VLatLon false deg (m1 ++ 46 :: m2))) /\
+  (memZ h ne_class = false -> memZ h sw_class = true ->
+     conv (chain_of c) (latlon_text deg h m1 m2) = Ok (VLatLon true deg (m1 ++ 46 :: m2))).
+Proof. exact latlon_proof. Qed.
+Print Assumptions latlon_roundtrip.
+
+(* any text of the shape of Python's repr of a finite float ([-]digits.digits or
+   [-]digits[.digits]e(+|-)digits: float_shape, decidable) passes every earlier step of every
+   converter chain (quoted, none/bool, path, lat/lon, six points, int base 10, int base 16) and is
+   accepted by the float step, which hands exactly that text to float(). *)
+Theorem float_text_accepted : forall c t, c <> CStripQuotes -> float_shape t = true ->
+  conv (chain_of c) t = Ok (VFloatText t).
+Proof. exact float_text_proof. Qed.
+Print Assumptions float_text_accepted.
+
+(* float round trip under ONE oracle: for any float type F with float_of_text / repr such that
+   (repr_inverse) float_of_text (repr x) = Some x and (repr_shape) repr x has float_shape for finite
+   x -- both premises are validated against CPython by the check on sampled doubles -- converting
+   repr x in any converter chain gives back x.  conv_f = conv followed by float_of_text on VFloatText. *)
+Theorem float_roundtrip :
+  forall (F : Type) (float_of_text : list Z -> option F) (repr : F -> list Z) (finite : F -> Prop),
+  (forall x, finite x -> float_of_text (repr x) = Some x) ->
+  (forall x, finite x -> float_shape (repr x) = true) ->
+  forall c x, c <> CStripQuotes -> finite x ->
+  conv_f float_of_text (chain_of c) (repr x) = OkFloat x.
+Proof. exact float_roundtrip_proof. Qed.
+Print Assumptions float_roundtrip.
+
 (* non-vacuity / documented-order witnesses (examples, by computation) *)
+Example ex_latlon_not_point :
+  conv (chain_of CStrBoolPathCoordPointNum) (txt "1n2.5") = Ok (VLatLon false (txt "1") (txt "2.5")) /\
+  conv (chain_of CStrBoolPathCoordPointNum) (txt "1n2.5e") = Ok (VPoint Pne [txt "1"; txt "2.5"]) /\
+  conv (chain_of CStrBoolPathCoordPointNum) (txt "1,2.5") = Ok (VLatLon false (txt "1") (txt "2.5")).
+Proof. repeat split; reflexivity. Qed.
+Example ex_dec_point : render_t [txt "-1.5"; txt "+2."; txt "007"] (letters Pxyz) = txt "-1.5x+2.y007z" /\
+  conv (chain_of CPointNum) (txt "-1.5x+2.y007z") = Ok (VPoint Pxyz [txt "-1.5"; txt "+2."; txt "007"]).
+Proof. split; reflexivity. Qed.
+Example ex_float_shapes : forallb float_shape [txt "100000.0"; txt "-0.0"; txt "1e+16"; txt "1e-05";
+    txt "1.7976931348623157e+308"; txt "5e-324"; txt "-2.5e-07"] = true /\
+  forallb (fun t => negb (float_shape t)) [txt "1e5"; txt "100000"; txt "inf"; txt "nan"; txt "1."; txt ".5";
+    txt "1e5.0"; txt "1.5e3"; txt "+1.5"; txt "1_0.5"] = true.
+Proof. split; reflexivity. Qed.
 Example ex_int : conv (chain_of CStrBoolPathCoordPointNum) (txt "-42") = Ok (VInt (-42)).
 Proof. reflexivity. Qed.
 Example ex_print : print_Z (-1203) = txt "-1203" /\ print_Z 0 = txt "0".
